@@ -131,7 +131,8 @@ def gen_file(rng: random.Random, fmt: str, custom: bool = False, first_format: s
     lines, text, exempt = [], [], []
     kfmt = "idx,R,R,R,P,P,P,P,P,Tmin,Tmax,rate"
     if fmt == "krome":
-        kfmt = rng.choice([kfmt, kfmt, "idx,R,R,P,P,Tmin,Tmax,rate", "R,R,P,P,Tmin,Tmax,rate", "rate,idx,R,R,P,P", "Tmin,Tmax,R,P,P,rate"])
+        kfmt = rng.choice([kfmt, kfmt, "idx,R,R,P,P,Tmin,Tmax,rate", "R,R,P,P,Tmin,Tmax,rate", "rate,idx,R,R,P,P", "Tmin,Tmax,R,P,P,rate",
+                           "idx,R,R,P,P,rate,Tmin,Tmax", "rate,Tmax,Tmin,idx,R,R,P,P"])
         if first_format:
             kfmt = first_format
         text.append("@format:" + (kfmt.lower() if (first_format or rng.random() < 0.4) else kfmt))
